@@ -1,6 +1,6 @@
 (* Monomorphic instances run by the correspondence driver (extracted) and by the in-kernel cross-check (vm_compute):
    labels are integer codes. Definitions only. *)
-From BG Require Import Base DirectedModel DirectedSpec UndirectedModel UndirectedSpec MultiModel WeightedModel MultiSpec ForcedSpec ConvModel.
+From BG Require Import Base DirectedModel DirectedSpec UndirectedModel UndirectedSpec MultiModel WeightedModel MultiSpec ForcedSpec ConvModel TopologyModel.
 Local Open Scope Z_scope.
 (* the alphabet asked about in hasEdge(i,j,l): 0..3 for labelled graphs, the single NoLabel value otherwise *)
 Definition alpha (hs : bool) : list Z := if hs then [0; 1; 2; 3] else [0].
@@ -106,3 +106,25 @@ Definition u_el_spec (hs : bool) (es : list (nat * nat * Z)) :=
   [Some (sobs_u hs (fold_left (fun a e => s_add a (fst (okey (fst (fst e)) (snd (fst e)))) (snd (okey (fst (fst e)) (snd (fst e)))) (snd e)) es (s_init (el_size es))))].
 Definition m_el_spec (und : bool) (es : list (nat * nat * Z)) := [Some (sobserve_m und (fold_left (fun a e => ms_add und a (fst (fst e)) (snd (fst e)) (snd e)) es (s_init (el_size es))))].
 Definition w_el_spec (und : bool) (es : list (nat * nat * Z)) := [Some (sobserve_w und (fold_left (fun a e => ws_add und a (fst (fst e)) (snd (fst e)) (snd e)) es (s_init (el_size es))))].
+(* ---- C10: subgraph extraction on the final graph of a history; [so] = iteration order of the implementation's unordered_set,
+   [f] = the map the implementation returned (validated by the spec side) ---- *)
+Definition nodup_b (l : list nat) : bool := forallb (fun v => Nat.eqb (count v l) 1) l.
+Definition same_set (a b : list nat) : bool := forallb (fun v => mem v b) a && forallb (fun v => mem v a) b.
+Definition order_ok (s so : list nat) : bool := nodup_b so && same_set s so.
+Definition zmap (f : list (nat * nat)) (so : list nat) : list Z := map (fun v => zn (amap f v)) so.
+Definition d_sub_case (hs : bool) (v : variant) (n : nat) (ops : list (@dop Z)) (s so : list nat) : list (list (list Z)) :=
+  match gfinal (step hs v) (init n) ops with None => [] | Some g =>
+    [ [map zn so]; obs_or_err (omap (obs_d hs v) (subgraph 0 hs v false g so));
+      match subgraph_remap 0 hs v false g so with Val (h, f) => obs_d hs v h ++ [zmap f so] | Raise e => [[zexn e]] | Undef _ => [[zub]] end ] end.
+Definition u_sub_case (hs : bool) (v : variant) (n : nat) (ops : list (@uop Z)) (s so : list nat) : list (list (list Z)) :=
+  match gfinal (ustep hs v) (init n) ops with None => [] | Some g =>
+    [ [map zn so]; obs_or_err (omap (obs_u hs v) (subgraph 0 hs v true g so));
+      match subgraph_remap 0 hs v true g so with Val (h, f) => obs_u hs v h ++ [zmap f so] | Raise e => [[zexn e]] | Undef _ => [[zub]] end ] end.
+Definition sub_spec (und : bool) (hs : bool) (a : option (@sgraph Z)) (s so : list nat) (f : list (nat * nat)) : list (option (list (list Z))) :=
+  match a with None => [None; None; None] | Some a =>
+    if negb (order_ok s so) then [Some [[-7]]; None; None]
+    else if existsb (fun v => negb (Nat.ltb v (sn a))) s then [Some [map zn so]; Some [[zexn OutOfRange]]; Some [[zexn OutOfRange]]]
+    else [ Some [map zn so]; Some ((if und then sobs_u hs else sobs_d hs) (s_induced a s));
+           if bijection_ok s f then Some ((if und then sobs_u hs else sobs_d hs) (s_image und a s f) ++ [zmap f so]) else Some [[-8]] ] end.
+Definition d_sub_spec (hs : bool) (n : nat) (ops : list (@dop Z)) := sub_spec false hs (gsfinal rejected_code spec_step (s_init n) ops).
+Definition u_sub_spec (hs : bool) (n : nat) (ops : list (@uop Z)) := sub_spec true hs (gsfinal u_rejected_code uspec_step (s_init n) ops).
